@@ -134,7 +134,7 @@ impl Property for C17 {
     }
 
     fn cases(tier: Tier) -> u64 {
-        tier.pick(40_000, 600_000)
+        tier.pick(40_000, 2_000_000)
     }
 
     fn exhaustive_spaces(_tier: Tier) -> Vec<String> {
